@@ -5,7 +5,7 @@ import "time"
 // HangLimit is how long a request may run before the supervisor records it as a
 // hang. The server-side deadlines under test are 3 s (ListObjects/ListUsers) or
 // shorter, so this leaves an order of magnitude of scheduling slack.
-var HangLimit = 30 * time.Second
+var HangLimit = 12 * time.Second
 
 // Watchdog runs f and reports whether it returned within d. On timeout f keeps
 // running in its goroutine (it is leaked deliberately: the call is hung).
